@@ -54,6 +54,7 @@ type ProxyParams struct {
 	TimeoutProbe bool         // C17: requests whose upstream never answers measure the effective timeout
 	NoRefuse     bool         // every host accepts connections
 	MutFilter    bool         // C01: filter f0 modifies the requests that ask for it (header "x-fm")
+	LocalErr     bool         // some requests ask for a service that has no route, or whose cluster has no host: MOSN answers itself
 	UpIdleS      int          // cluster idle_timeout in seconds (0 = not configured): MOSN closes idle upstream connections itself
 	ShutdownMs   int          // C11: graceful stop is requested at this instant (0 = never)
 	DrainMs      int          // C11: drain timeout
@@ -217,6 +218,14 @@ func DrawProxyParams(ch *sim.Choices, prop string) ProxyParams {
 			p.Oneway, p.Filters = false, nil
 		}
 	}
+	if (prop == "C03" || prop == "C10" || prop == "C02") && !p.Auto && len(p.Filters) == 0 && ch.Chance("params", "localerr", 1, 3) {
+		switch p.Proto {
+		case "bolt", "boltv2", ppName, "http1":
+			p.LocalErr = true
+		case "http2":
+			p.LocalErr = p.Faults // (without scripted faults the HTTP/2 arm is judged by the fidelity oracle of C18)
+		}
+	}
 	if prop == "C17" {
 		p.Acts = DrawRouteActs(ch, p.Proto)
 		p.ClientLeaves, p.Oneway, p.IdleCloses = false, false, 0
@@ -351,6 +360,21 @@ func (w *Proxy) buildConfig() []byte {
 		pcfg = J{"downstream_protocol": "Auto", "upstream_protocol": "Auto", "router_config_name": "r0"}
 		match = J{"headers": []J{{"name": "service", "value": ".*", "regex": true}}}
 	}
+	var extraRoutes []J
+	var extraClusters []J
+	if p.LocalErr {
+		// only services named svc* are routed; "empty" is routed to a cluster that has no host
+		svcMatch := []J{{"name": "service", "value": "svc.*", "regex": true}}
+		emptyMatch := J{"headers": []J{{"name": "service", "value": "empty"}}}
+		if _, isPrefix := match["prefix"]; isPrefix {
+			match = J{"prefix": "/", "headers": svcMatch}
+			emptyMatch["prefix"] = "/"
+		} else {
+			match = J{"headers": svcMatch}
+		}
+		extraRoutes = append(extraRoutes, J{"match": emptyMatch, "route": J{"cluster_name": "cE"}})
+		extraClusters = append(extraClusters, J{"name": "cE", "type": "SIMPLE", "lb_type": "LB_ROUNDROBIN", "hosts": []J{}})
+	}
 	lis := J{
 		"name": "l0", "address": w.lisAddr, "bind_port": true,
 		"filter_chains": []J{{"filters": []J{{"type": "proxy", "config": pcfg}}}},
@@ -367,7 +391,7 @@ func (w *Proxy) buildConfig() []byte {
 	}
 	routerCfg := J{"router_config_name": "r0", "virtual_hosts": []J{{
 		"name": "vh", "domains": []string{"*"},
-		"routers": []J{{"match": match, "route": route}},
+		"routers": append(extraRoutes, J{"match": match, "route": route}),
 	}}}
 	if p.Acts != nil {
 		routerCfg = w.c17Router(route)
@@ -379,7 +403,7 @@ func (w *Proxy) buildConfig() []byte {
 			"listeners": []J{lis},
 			"routers":   []J{routerCfg},
 		}},
-		"cluster_manager": J{"clusters": []J{cluster}},
+		"cluster_manager": J{"clusters": append([]J{cluster}, extraClusters...)},
 	}
 	return mustJSON(cfg)
 }
@@ -995,10 +1019,15 @@ func (w *Proxy) setupXClient(ci int, proto string, reqIdxP *int) {
 			if p.Acts != nil {
 				svc = fmt.Sprintf("svc%d", ch.Pick("work", "svc", 3))
 			}
-			f.Headers = []peers.KV{{K: "service", V: svc}, {K: "tok", V: tok}}
 			if r.Extra == nil {
 				r.Extra = map[string]string{}
 			}
+			if p.LocalErr && ch.Chance("work", "localerr", 1, 5) {
+				svc = pickFrom(ch, "work", "localerrkind", []string{"none", "empty"})
+				r.Extra["local_err"] = svc
+				s.Fault("w:local_error_reply_" + svc)
+			}
+			f.Headers = []peers.KV{{K: "service", V: svc}, {K: "tok", V: tok}}
 			r.Extra["svc"] = svc
 			w.c17RequestExtras(r, &f.Headers, &f.Timeout)
 			if fv := w.drawVerdicts(r); fv != "" {
@@ -1077,6 +1106,9 @@ func (w *Proxy) h1ReplyBuilder(u *peers.H1Upstream, r *peers.ReqRec, up *peers.U
 	}
 	m.Body = body
 	m.Chunked = len(r.Frame)%5 == 0
+	if r.Method == "HEAD" {
+		m.Body, m.Chunked = nil, false
+	}
 	if v := r.Extra["odd_resp_headers"]; v != "" {
 		var mask int
 		fmt.Sscan(v, &mask)
@@ -1147,6 +1179,9 @@ func (w *Proxy) setupH1Client(ci int, reqIdxP *int) {
 			}
 			m := &peers.H1Msg{IsReq: true}
 			m.Method = pickFrom(ch, "work", "method", []string{"POST", "GET", "PUT", "DELETE"})
+			if w.Prop == "C01" && p.Acts == nil && len(p.Filters) == 0 && ch.Chance("work", "head", 1, 8) {
+				m.Method = "HEAD" // (answered without a body)
+			}
 			m.Target = pickFrom(ch, "work", "target", h1Targets)
 			r.Method, r.Target = m.Method, m.Target
 			svc := fmt.Sprintf("svc%d", k%3)
@@ -1161,6 +1196,11 @@ func (w *Proxy) setupH1Client(ci int, reqIdxP *int) {
 				// (local replies echo a normalised path; the empty-query case is a known C01 finding)
 				m.Target = pickFrom(ch, "work", "simpletarget", []string{"/x", "/a/b?q=1", "/"})
 				r.Target = m.Target
+			}
+			if p.LocalErr && ch.Chance("work", "localerr", 1, 5) {
+				svc = pickFrom(ch, "work", "localerrkind", []string{"none", "empty"})
+				r.Extra["local_err"] = svc
+				s.Fault("w:local_error_reply_" + svc)
 			}
 			r.Extra["svc"] = svc
 			if _, _, cross := crossProto(p.Proto); cross {
